@@ -4,6 +4,7 @@ from __future__ import annotations
 import ast
 
 from engine.defuse import value_sources
+from engine.flow import dominating_guards
 from engine.effects import EventSpec, ap_str
 from engine.flow import reachable_from_entry
 from .common import MUTATING_METHODS, STATE, container_mutations
@@ -163,11 +164,36 @@ def check_fresh_defaults(ctx):
             if not isinstance(arg, ast.Name):
                 ok, why = False, "default passed as %s" % ast.unparse(arg)
             for d in rd_raw:
-                # the raw default may reach the call only when it is not a list/dict
+                raw_ids = {id(leaf) for k, leaf in value_sources(fn, d.value, d.node) if k == "expr"}
+
+                def same_raw(x, at):
+                    """is the name tested the raw declared default (under whatever local name)?"""
+                    if not isinstance(x, ast.Name):
+                        return False
+                    if x.id == arg.id:
+                        return True
+                    ids = {id(leaf) for k, leaf in value_sources(fn, x, at) if k == "expr"}
+                    return bool(ids) and ids <= raw_ids
+
+                def not_container(e, lbl, at):
+                    if isinstance(e, ast.Call) and ast.unparse(e.func) == "isinstance" and len(e.args) == 2 and same_raw(e.args[0], at):
+                        spec = ft.class_spec(e.args[1], {}) or []
+                        want = "list" if "List" in fn.cls.name else "dict"
+                        return want in spec and lbl is False
+                    if isinstance(e, ast.Compare) and len(e.ops) == 1 and same_raw(e.left, at) and isinstance(e.comparators[0], ast.Constant) \
+                            and e.comparators[0].value is None:
+                        return (isinstance(e.ops[0], ast.IsNot) and lbl is False) or (isinstance(e.ops[0], ast.Is) and lbl is True)
+                    return False
+                # a guard clause: the raw default is only assigned where it is known not to be a container
+                if d.node is not None and any(not_container(t.ast, tr, t) for t, tr in dominating_guards(an, fn, d.node)):
+                    continue
+
                 def cut(a, b, lbl):
                     if a.kind != "test":
                         return True
                     e = a.ast
+                    if not_container(e, lbl, a):
+                        return False
                     if isinstance(e, ast.Call) and ast.unparse(e.func) == "isinstance" and isinstance(e.args[0], ast.Name) and e.args[0].id == arg.id:
                         spec = ft.class_spec(e.args[1], {}) or []
                         want = "list" if "List" in fn.cls.name else "dict"
@@ -186,6 +212,23 @@ def check_fresh_defaults(ctx):
                                                                                  "list" if "List" in fn.cls.name else "dict"))
             ctx.ob("default.fresh", fn, n.ast, ok, why, node=n)
     ctx.need(nsites >= 5, "fewer than 5 default stores found")
+    # default stores outside the fields' own __setdefault__ (helpers such as reset_value): the declared default must not be
+    # handed over as it is -- the per-configuration copy / proxy is made by __setdefault__ only
+    for fn in an.fns():
+        if fn.name == "__setdefault__" and fn.cls is not None and fn.cls.is_subclass_of(Base):
+            continue
+        g = an.cfg(fn)
+        for n in g.nodes:
+            if n.kind != "call" or sdv not in an.callees(fn, n) or len(n.ast.args) < 2:
+                continue
+            arg = n.ast.args[1]
+            raw = [leaf for k, leaf in value_sources(fn, arg, n)
+                   if k == "expr" and isinstance(leaf, ast.Attribute) and leaf.attr in ("default", "_default")]
+            ctx.ob("default.fresh", fn, n.ast, not raw,
+                   "does not hand a field's declared default to the configuration" if not raw else
+                   "%s stores a field's declared default object (%s) without the per-configuration copy made by __setdefault__: "
+                   "a list/dict default is then shared by the schema and every configuration reset this way" % (fn.qualname, ast.unparse(raw[0])),
+                   node=n, nontrivial=bool(raw))
 
 
 
